@@ -302,7 +302,7 @@ def gen_nearmiss(rng):
   """-> (source, description).  half of them are exactly well-typed, the others off by one somewhere"""
   w = rng.choice([1, 2, 3, 4, 7, 8, 9, 16, 31, 32, 33, 48, 49, 50, 63, 64, 65, 100])
   d = rng.choice([0, 0, 1, -1]) if w > 1 else rng.choice([0, 1])
-  shape = rng.randrange(27)
+  shape = rng.randrange(29)
   itbl = [1, 1, 0, 1]
   wa, wb, wo = w, w + d, w
   lit_k = rng.choice([w - 1, w, w + 1, w, w])
@@ -402,6 +402,25 @@ def gen_nearmiss(rng):
     if same: b2 = b1
     stmt = rng.choice([f"s.o @= s.wd[{b1} : {b2} + {K}]", f"s.o @= s.a ^ s.wd[{b1} : {b2} + {K}]", f"s.o1 @= s.a == s.wd[{b1} : {b2} + {K}]"])
     lit = ("same-base:" if same else "two-bases:") + fam; d = 0 if same else 1
+  elif shape == 27:
+    # arithmetic on integers whose width is only inferred (a loop variable, an int temporary) used as an OPERAND: whatever width the
+    # checker gives (i + K), it has to hold every value the expression takes (probe shape of the listed finding F-W4)
+    n = rng.choice([2, 3, 4, 5, 8]); K = rng.choice([1, 1, 2, 3])
+    wb = w
+    if rng.random() < 0.6: w = wa = wb = wo = max(1, (n - 1).bit_length())          # the signal is exactly as wide as the loop variable
+    if rng.random() < 0.6:
+      body = rng.choice([f"s.o @= s.a {op} (i + {K})", f"s.o1 @= s.a {cmp_} (i + {K})", f"s.o @= s.a {op} (i * {K + 1})"])
+      stmt = f"for i in range({n}):\n        {body}"
+    else:
+      stmt = f"x = {n - 1}\n      y = x + x\n      " + rng.choice([f"s.o @= s.a {op} y", f"s.o1 @= s.a {cmp_} y"])
+    lit = "implicit-arithmetic"
+  elif shape == 28:
+    # a temporary that is an integer literal BEFORE a loop and is given a sized value at the end of the loop body, after its use: from
+    # the second iteration on the use sees the sized value (probe shape of the listed finding F-W8)
+    ws = rng.choice([1, 1, 2, w]); wb = ws
+    use = rng.choice([f"s.o @= s.a {op} t", f"s.o1 @= s.a {cmp_} t", f"s.o @= s.a {op} (t if s.c else 0)"])
+    stmt = f"t = {rng.choice([0, 1])}\n      for i in range(3):\n        {use}\n        t = s.b" + ("" if ws > 1 else "[0]")
+    lit = "loop-carried-temporary"; d = 0 if ws == w else 1
   elif shape == 24:
     # an element of a table of SIZED constants picked by a constant expression ( s.tbl[s.N - 1] ): it is wb bits wide, full stop
     ix = rng.choice(["s.N - 1", "s.N", "0 + 1", "1"])
@@ -458,6 +477,7 @@ def run_nearmiss(sh, case):
     sh.count("nearmiss_cases"); sh.count("evaluations")
     sh.count("nearmiss_accepted" if accepted else "nearmiss_rejected")
     if desc["shape"] == 25: sh.count("int_table_signal_index:" + str(desc["literal"]) + (":accepted" if accepted else ":rejected"))
+    if desc["shape"] in (27, 28): sh.count(str(desc["literal"]) + (":accepted" if accepted else ":rejected") + (":raises" if err is not None and is_width_error(err) else ""))
     if desc["shape"] == 26:
       sh.count("part_select:" + str(desc["literal"]) + (":accepted" if accepted else ":rejected"))
       if accepted and err is not None and not is_width_error(err): sh.count("part_select_other_error:" + type(err).__name__)
@@ -468,6 +488,8 @@ def run_nearmiss(sh, case):
       if desc["shape"] == 25: sh.count("int_table_cases_accepted_and_raising")
       if desc["shape"] == 14 and "Integer -" in str(err):
         mech = "negative-integer-constant-operand-accepted-but-refused-by-simulation"
+      if desc["shape"] == 27: mech = "implicit-arithmetic-on-loop-variable-keeps-pre-enforcement-width"
+      if desc["shape"] == 28: mech = "temporary-typed-once-in-textual-order-although-the-loop-retypes-it"
       sh.violation("checker-accepted-a-block-whose-simulation-raises-a-width-error", dict(desc, error=str(err)[:160], source=src), mechanism=mech, case=case)
     if case < 1:
       sh.sample({"near_miss": desc, "checker_accepted": accepted, "rejection": rej, "simulation_error": None if err is None else str(err)[:100]})
